@@ -152,4 +152,7 @@ Definition c09_case (la ln lv : list (string * string)) (P : lp) (mp : list mrow
 
 (* ---------- C17 ---------- *)
 From EAO Require Import SLP.
+From EAO Require Import SLPProofs.
 Definition c17_case (P : lp) (fut : list bool) (cs : list vec) (P2 : lp) : list bool := lp_close (slp_lp P fut cs) P2.
+Definition c17_map_case (mp : list mrow) (fut : list bool) (nS n : nat) (mp2 : list mrow) : bool :=
+  map_close (slp_map mp fut nS n) mp2 || map_close_perm (slp_map mp fut nS n) mp2.
